@@ -406,6 +406,43 @@ theorem loadSeq_roundtrip {α} (wr : α → Stream) :
     simp only [List.map_cons, List.flatMap_cons, List.append_assoc, loadSeq, loadOn, hp _]
     rw [ih]
 
+
+/-- every load of a sequence either yields an object its reader's validity theorem vouches for (stream good), or signals
+    failure and leaves the destination alone: `failed_read_atomic` for each member of `is >> a >> b >> …`.
+    `V` is any predicate the readers establish (`rd*_ok`), e.g. `validObj`. -/
+theorem loadSeq_valid {α} (V : α → Prop) (l : List (Rd α × α)) (st : SState)
+    (hV : ∀ p ∈ l, ∀ s y s', p.1 s = .ok y s' → V y) :
+    List.Forall₂ (fun (p : Rd α × α) (L : Loaded α) => (L.sig = none ∧ V L.dest) ∨ (L.sig ≠ none ∧ L.dest = p.2)) l (loadSeq l st) := by
+  induction l generalizing st with
+  | nil => exact .nil
+  | cons p l' ih =>
+    have h := loadSeq_atomic (p :: l') st
+    simp only [loadSeq] at h ⊢
+    cases h with
+    | cons hpl _ =>
+      refine .cons ?_ (ih _ (fun q hq => hV q (List.mem_cons_of_mem _ hq)))
+      rcases hpl with ⟨hs, s, s', hr⟩ | h
+      · exact Or.inl ⟨hs, hV p (List.mem_cons_self) s _ s' hr⟩
+      · exact Or.inr h
+
+/-- instance: a dense MDP model followed by anything — whatever the bytes, the model destination ends up valid or untouched -/
+example (tol : Rat) (S A : Nat) (d1 d2 : DModel Rat) (st : SState) :
+    List.Forall₂ (fun (p : Rd (DModel Rat) × DModel Rat) (L : Loaded (DModel Rat)) =>
+        (L.sig = none ∧ dmodelValidB (ratIO tol) S A L.dest = true) ∨ (L.sig ≠ none ∧ L.dest = p.2))
+      [(rdDModel (ratIO tol) S A, d1), (rdDModel (ratIO tol) S A, d2)]
+      (loadSeq [(rdDModel (ratIO tol) S A, d1), (rdDModel (ratIO tol) S A, d2)] st) :=
+  loadSeq_valid (fun m => dmodelValidB (ratIO tol) S A m = true)
+    [(rdDModel (ratIO tol) S A, d1), (rdDModel (ratIO tol) S A, d2)] st (by
+    intro p hp s y s' h
+    have hp' : p.1 = rdDModel (ratIO tol) S A := by
+      rcases List.mem_cons.1 hp with rfl | hp
+      · rfl
+      · rcases List.mem_cons.1 hp with rfl | hp
+        · rfl
+        · cases hp
+    rw [hp'] at h
+    exact rdDModel_ok _ S A s s' y h)
+
 /-- test: two vectors on one stream, then a third load at end of input fails and keeps its destination -/
 example : (loadSeq [(rdVec (ratIO 0) 1, [7]), (rdVec (ratIO 0) 2, [8, 8]), (rdVec (ratIO 0) 1, [9])]
       (some ["1".toList, "2".toList, "0.5".toList])).map (fun L => (L.dest, L.sig))
